@@ -58,6 +58,12 @@ CLAIMED = {
    note="Trusted: Lean kernel (+ grind's use of propext/Classical.choice/Quot.sound); hand transliteration of the generated state checks (tied by the exhaustive runs); MATLAB base classes are not executed (no MATLAB) and not covered; behaviour after a successful close() is unspecified and not compared.",
    technique="Lean 4 proof (bisimulation, lifted to runs by induction) + exhaustive/random differential on generated base classes",
    design="§7 C07"),
+ "C04": dict(
+   engine="schema",
+   text="Kernel-checked: every binary stream starts with magic, format version and the schema, and a stream determines its schema; the visited-set traversal by which GetProtocolSchema collects the schema's types yields exactly the named types reachable from the protocol (any graph size), hence is insensitive to definition/field order and to adding or editing unreferenced definitions. Decided by correspondence: a Lean reader that sees only the schema text (planOfSchema) reconstructs the true wire types of every protocol of random and directed packages (so different encodings never share a schema), the schema literal is identical in generated C++, Python, MATLAB and in-process, neutral edits (comments, computed fields, unreferenced definitions, order, file layout, spelling) keep it and wire-affecting edits change it.",
+   note="Trusted: Lean kernel; planOfSchema and the package generator's independent type resolution; json.go's marshalling itself is not modelled (the schema text is taken from the tool). 'visit returns some for fuel > #definitions' is evaluated, not proved. Known finding: enum vs flags is not recorded.",
+   technique="Lean 4 proof (reachability closure) + schema-only reconstruction of the encoding compared with independently resolved wire types",
+   design="§7 C04"),
 }
 NOT_YET = "machinery for this property is not built yet in this round (see DESIGN.md §10 build order)"
 checks, na = [], []
@@ -95,6 +101,8 @@ m = {
     "kind_free_text": "generateImpl as a fallible call sequence over an abstract FS; call list from harness/go/cmd/facts pipeline"},
    {"name": "proto", "path": "lean/YardlModel/Proto.lean", "serves_properties": ["C07"],
     "kind_free_text": "reader/writer step-order state machines (implementation encodings vs specification positions)"},
+   {"name": "schema", "path": "lean/YardlModel/Schema.lean", "serves_properties": ["C04", "C15"],
+    "kind_free_text": "planOfSchema: schema text -> resolved wire types; Closure.lean: model of the type collection"},
    {"name": "wire", "path": "lean/YardlModel/Wire.lean", "serves_properties": ["C01", "C03", "C15", "C16", "C17"],
     "kind_free_text": "Lean model of the binary format + buffered stream implementations; line-protocol driver lean/Main/WireDriver.lean"},
  ],
